@@ -117,6 +117,37 @@ pub struct Renamed {
     pub c: Vec<()>,
 }
 
+/// Maps inside representations that serde deserializes through its buffered `Content` (untagged,
+/// internally tagged, flatten): their keys reach the deserializer through `deserialize_any`
+/// rather than through the typed key methods.
+#[derive(Serialize, Deserialize, PartialEq, Debug, Clone)]
+#[serde(untagged)]
+pub enum UntaggedMaps {
+    ByString(BTreeMap<String, u8>),
+    ByChar(BTreeMap<char, String>),
+    Seq(Vec<u8>),
+}
+
+#[derive(Serialize, Deserialize, PartialEq, Debug, Clone)]
+#[serde(tag = "kind")]
+pub enum InternalMaps {
+    WithMap { m: BTreeMap<String, u8>, c: BTreeMap<char, bool> },
+    Unit,
+}
+
+#[derive(Serialize, Deserialize, PartialEq, Debug, Clone)]
+pub struct FlatMaps {
+    pub id: u8,
+    #[serde(flatten)]
+    pub inner: FlatInner,
+}
+
+#[derive(Serialize, Deserialize, PartialEq, Debug, Clone)]
+pub struct FlatInner {
+    pub named: BTreeMap<String, i16>,
+    pub by_int: BTreeMap<i32, String>,
+}
+
 /// A byte string: serialized with `serialize_bytes`, read back with `deserialize_byte_buf`.
 #[derive(PartialEq, Debug, Clone)]
 pub struct Bytes(pub Vec<u8>);
@@ -342,6 +373,18 @@ fn representations(t: &mut Tally) {
         check_datum(&St { f: Bytes(v.clone()), g: 3 }, "bytes in a struct", false, t);
         check_datum(&BTreeMap::from([("k".to_string(), Bytes(v))]), "bytes in a map", false, t);
     }
+    // keys that look like numbers, booleans or null, in maps that are deserialized from
+    // serde's buffered content
+    for keys in [vec!["2024"], vec!["-1", "x"], vec!["7", "007", "1e3"], vec!["true", "null"], vec!["18446744073709551616"], vec![]] {
+        let m: BTreeMap<String, u8> = keys.iter().enumerate().map(|(i, k)| (k.to_string(), i as u8)).collect();
+        check_datum(&UntaggedMaps::ByString(m.clone()), "untagged enum holding a string-keyed map", false, t);
+        check_datum(&InternalMaps::WithMap { m: m.clone(), c: BTreeMap::from([('7', true), ('x', false)]) }, "internally tagged variant holding maps", false, t);
+        check_datum(&vec![InternalMaps::Unit, InternalMaps::WithMap { m: m.clone(), c: BTreeMap::new() }], "Vec of internally tagged variants holding maps", false, t);
+        check_datum(&FlatMaps { id: 1, inner: FlatInner { named: m.iter().map(|(k, v)| (k.clone(), *v as i16)).collect(), by_int: BTreeMap::from([(-1, "a".to_string()), (2024, "b".to_string())]) } }, "flattened struct holding maps", false, t);
+        check_datum(&Flat { a: 3, rest: m.iter().map(|(k, v)| (k.clone(), *v as i16)).collect() }, "flattened map", false, t);
+    }
+    check_datum(&UntaggedMaps::ByChar(BTreeMap::from([('7', "seven".to_string()), ('-', "dash".to_string())])), "untagged enum holding a char-keyed map", false, t);
+    check_datum(&UntaggedMaps::Seq(vec![1, 2]), "untagged enum holding a sequence", false, t);
     check_datum(&Internal::C, "internally tagged enum", false, t);
     check_datum(&Adjacent::C, "adjacently tagged enum", false, t);
     for (u, o) in [(0u64, None), (u64::MAX, Some(true)), (1 << 63, Some(false))] {
